@@ -966,6 +966,14 @@ DOCUMENTED_DEFAULTS = {
     'redis.omitted.url': 'None', 'redis.omitted.connection_is_none': 'true', 'redis.omitted.pool_is_none': 'true',
     'redis.default.url': 'None', 'redis.default.connection_is_none': 'false',
     'cluster.default.urls': 'None', 'cluster.default.read_from_replicas': 'false',
+    # PoolConfig: max_size is a required field (a text omitting it is rejected); if it were accepted, only the
+    # documented default cpu_count * 4 would do. Omitted sections: no timeouts, Fifo.
+    'poolconfig.omitted_max_size.empty': ('rejected', 'documented default'),
+    'poolconfig.omitted_max_size.queue_mode_only': ('rejected', 'documented default'),
+    'poolconfig.omitted_max_size.timeouts_only': ('rejected', 'documented default'),
+    'poolconfig.default.max_size_is_cpus_times_4': 'true',
+    'poolconfig.omitted_sections.timeouts': 'None None None',
+    'poolconfig.omitted_sections.queue_mode': 'Fifo',
 }
 
 
@@ -981,7 +989,10 @@ def documented_defaults():
             pass
     msgs = []
     for k, want in DOCUMENTED_DEFAULTS.items():
-        if got.get(k) != want:
+        if isinstance(want, tuple):
+            if got.get(k) not in want:
+                msgs.append('omitted / default %s is %r, allowed: %s' % (k, got.get(k), ' or '.join(want)))
+        elif got.get(k) != want:
             msgs.append('omitted / default %s is %r, the documented default is %r' % (k, got.get(k), want))
     return msgs
 
